@@ -11,9 +11,10 @@ func pcall(t *rt.Thread, c *rt.GoCont) (rt.Cont, error) {
 	}
 	next := c.Next()
 	res := rt.NewTerminationWith(c, 0, true)
-	_, err = t.CallContext(rt.RuntimeContextDef{}, func() error {
+	ctx, err := t.CallContext(rt.RuntimeContextDef{}, func() error {
 		return rt.Call(t, c.Arg(0), c.Etc(), res)
 	})
+	propagateTermination(t, ctx, err)
 	if err != nil {
 		t.Push1(next, rt.BoolValue(false))
 		t.Push1(next, rt.ErrorValue(err))
@@ -22,6 +23,16 @@ func pcall(t *rt.Thread, c *rt.GoCont) (rt.Cont, error) {
 		t.Push(next, res.Etc()...)
 	}
 	return next, nil
+}
+
+// The context a protected call runs in has no limits of its own: when it is
+// terminated, it is because the enclosing context has run out of resources or
+// was killed.  A protected call must not intercept that, so the termination
+// carries on in the enclosing context.
+func propagateTermination(t *rt.Thread, ctx rt.RuntimeContext, err error) {
+	if ctx != nil && ctx.Status() == rt.StatusKilled && err != nil {
+		t.TerminateContext("%s", err.Error())
+	}
 }
 
 func xpcall(t *rt.Thread, c *rt.GoCont) (rt.Cont, error) {
@@ -39,11 +50,12 @@ func xpcall(t *rt.Thread, c *rt.GoCont) (rt.Cont, error) {
 	next := c.Next()
 	res := rt.NewTerminationWith(c, 0, true)
 
-	_, err = t.CallContext(rt.RuntimeContextDef{
+	ctx, err := t.CallContext(rt.RuntimeContextDef{
 		MessageHandler: msgHandler,
 	}, func() error {
 		return rt.Call(t, c.Arg(0), c.Etc(), res)
 	})
+	propagateTermination(t, ctx, err)
 	if err != nil {
 		t.Push1(next, rt.BoolValue(false))
 		t.Push1(next, rt.ErrorValue(err))
